@@ -178,7 +178,7 @@ impl SubStats {
             let n = self.sample_classes.entry(label.clone()).or_insert(0);
             if *n < 2 && self.samples.len() < 24 && text.len() < 600 {
                 *n += 1;
-                self.samples.push(json!({"class": label, "case": case}));
+                self.samples.push(json!({"class": label, "case_text": text}));
             }
         }
     }
@@ -298,7 +298,7 @@ pub fn worker_main(prop: &Property, args: &WorkerArgs) -> i32 {
                 Some(s) => s,
                 None => {
                     let mut st = SubStats::default();
-                    st.violations.push(json!({"case": case, "msg": format!("unknown sub-check {}", sub_name), "oracle_broken": true}));
+                    st.violations.push(json!({"case_text": case.to_string(), "msg": format!("unknown sub-check {}", sub_name), "oracle_broken": true}));
                     result.insert(sub_name.clone(), st.to_json(""));
                     continue;
                 }
@@ -312,7 +312,7 @@ pub fn worker_main(prop: &Property, args: &WorkerArgs) -> i32 {
                     if let (false, Some(k)) = (args.strict, known_match(&known, prop.id, sub.name, &text, &msg)) {
                         *st.known.entry(k.what.clone()).or_insert(0) += 1;
                     } else {
-                        st.violations.push(json!({"case": case, "msg": msg}));
+                        st.violations.push(json!({"case_text": text, "msg": msg}));
                     }
                 }
             }
@@ -339,7 +339,7 @@ pub fn worker_main(prop: &Property, args: &WorkerArgs) -> i32 {
             if prop.id == "C01" {
                 if let Some(f) = &cur_fd {
                     use std::os::unix::fs::FileExt;
-                    let rec = json!({"sub": sub.name, "case": case}).to_string();
+                    let rec = json!({"sub": sub.name, "case_text": case.to_string()}).to_string();
                     let mut padded = rec.into_bytes();
                     padded.push(b'\n');
                     let _ = f.set_len(0);
@@ -370,7 +370,7 @@ pub fn worker_main(prop: &Property, args: &WorkerArgs) -> i32 {
                             *st.known.entry(k.what.clone()).or_insert(0) += 1;
                         } else if st.violations.len() < 5 {
                             let broken = msg.starts_with("oracle_broken:");
-                            st.violations.push(json!({"case": case, "msg": msg, "from": "enumerated", "oracle_broken": broken}));
+                            st.violations.push(json!({"case_text": text, "msg": msg, "from": "enumerated", "oracle_broken": broken}));
                         }
                     }
                 }
@@ -430,10 +430,10 @@ pub fn worker_main(prop: &Property, args: &WorkerArgs) -> i32 {
                         TestError::Fail(reason, minimal) => {
                             let m = reason.message().to_string();
                             let broken = m.starts_with("oracle_broken:");
-                            stats.borrow_mut().violations.push(json!({"case": minimal, "msg": m, "from": "generated+shrunk", "oracle_broken": broken}));
+                            stats.borrow_mut().violations.push(json!({"case_text": minimal.to_string(), "msg": m, "from": "generated+shrunk", "oracle_broken": broken}));
                         }
                         TestError::Abort(reason) => {
-                            stats.borrow_mut().violations.push(json!({"case": null, "msg": format!("proptest aborted: {}", reason.message()), "oracle_broken": true}));
+                            stats.borrow_mut().violations.push(json!({"case_text": "null", "msg": format!("proptest aborted: {}", reason.message()), "oracle_broken": true}));
                         }
                     }
                 }
